@@ -2638,6 +2638,14 @@ func (s *Server) serveConnCounted(c net.Conn, countConcurrency bool) error {
 			s.Handler(ctx)
 		}
 
+		if rs, ok := ctx.Request.bodyStream.(*requestStream); ok && !rs.fullyRead() {
+			// The handler left a part of the streamed request body unread.
+			// The rest of the body is still on the connection, so the next
+			// request does not start at the next byte: close the connection
+			// after responding instead of parsing body bytes as a request.
+			connectionClose = true
+		}
+
 		timeoutResponse = ctx.timeoutResponse
 		if timeoutResponse != nil {
 			// Acquire a new ctx because the old one will still be in use by the timeout out handler.
